@@ -404,6 +404,46 @@ Fixpoint no_xml_space_preserve (x : node) : bool :=
   end.
 
 (* ------------------------------------------------------------------------------------------------ *)
+(* xsl:number level="any" (XSLT/ElemNumber.cpp: findPrecedingOrAncestorOrSelf, getPreviousNode;
+   CountersTable::countNode without its cache): the backwards walk is over the PHYSICAL tree — previous
+   sibling's deepest last descendant, else the parent — i.e. over the document-order predecessors, stripped
+   text nodes included; the count and from patterns are tested on each node visited (a stripped text node
+   matches no pattern, the node tests ask), but getPreviousNode tests `from` only when it has moved to a
+   parent.  A node of the walk: depth in the tree, does it match from / count, is it a stripped text node.
+   The list is the current node followed by its predecessors in reverse document order. *)
+Record wnode := { w_depth : nat; w_from : bool; w_count : bool; w_stripped : bool }.
+
+(* findPrecedingOrAncestorOrSelf: from is tested on every node *)
+Fixpoint number_target (l : list wnode) : option (list wnode) :=
+  match l with
+  | [] => None
+  | x :: r => if w_from x then None else if w_count x then Some l else number_target r
+  end.
+
+(* repeated getPreviousNode from a position of depth d whose predecessors are r: how many more nodes are counted *)
+Fixpoint number_chain (d : nat) (r : list wnode) : nat :=
+  match r with
+  | [] => 0
+  | y :: r' =>
+      if Nat.ltb (w_depth y) d && w_from y then 0          (* moved to the parent and it matches from *)
+      else if w_count y then S (number_chain (w_depth y) r')
+      else number_chain (w_depth y) r'
+  end.
+
+Definition number_any (l : list wnode) : nat :=
+  match number_target l with
+  | Some (x :: r) => S (number_chain (w_depth x) r)
+  | _ => 0
+  end.
+
+(* the same walk in the physically stripped document *)
+Definition walk_strip (l : list wnode) : list wnode := filter (fun x => negb (w_stripped x)) l.
+
+(* stripped text nodes match no pattern *)
+Definition walk_ok (l : list wnode) : Prop :=
+  forall x, In x l -> w_stripped x = true -> w_from x = false /\ w_count x = false.
+
+(* ------------------------------------------------------------------------------------------------ *)
 (* the audited census (compare GenStrip: census_complete in Properties_C13).  Every entry was read:
 
    (a) node tests: only testText and testNode can return a score for a text node; both ask.
